@@ -95,6 +95,15 @@ def windowKernel {β : Type} (red : List Val → β) (w : Nat) (a : Arr Val) : N
 def windowFnKernel {β : Type} (k : (Nat → Nat → Val) → β) (a : Arr Val) : Nat → Nat → β :=
   fun i j => k (fun p q => a (i + p) (j + q))
 
+/-- `np.nansum(E, axis=(2, 3))` on one `w × w` window given as an index function -/
+def nansumW (w : Nat) (f : Nat → Nat → Val) : Rat :=
+  Filter.nansum ((Filter.cells w).map (fun p => f p.1 p.2))
+
+/-- the quotient of two `nansum`s in a model without infinities: `0/0` is NaN; `x/0` with `x ≠ 0` is `±inf` in numpy,
+    which a `Val` cannot hold — it is NaN here too (with non-negative weights, the hypothesis of C10's theorems, a zero
+    total weight forces a zero weighted sum, so the case does not arise there) -/
+def nandiv (a b : Rat) : Val := if b = 0 then .nan else .num (a / b)
+
 /-- one block: the kernel is evaluated on the content `base` has NOW, then written into `dst` -/
 def assignSt {α : Type} (kern : Arr α → Nat → Nat → α) (dst base : Nat) (s : Store α)
     (yb ylen xb xlen ys xs : Nat) : Store α :=
